@@ -306,7 +306,7 @@ fn mutation() -> impl Strategy<Value = Mutation> {
 pub fn def() -> PropDef {
     PropDef {
         id: "C09",
-        rule: "receiver states (role x 11 policy/mode pairs x keys derived or not x own certificate present or not x remote certificate set or not) x structure-aware mutants of a valid chunk (total length from 12 bytes up, cipher text length in every residue class of the block, every header field to boundary values, sender certificate null / empty / truncated / garbage / oversized, thumbprint null / 19 / 20 / 21 bytes, bogus padding bytes under a genuine signature, bit flips, raw bytes) into verify_and_remove_security, then chunk_info / validate_chunks / Chunker::decode, and through the client transport state; oracle: value or Bad status, never a panic; non-trivial = input passes the 12-byte header decode and the size check; distinct = distinct case",
+        rule: "receiver states (role x 11 policy/mode pairs x keys derived or not x own certificate present or not x remote certificate set or not) x structure-aware mutants of a valid chunk (total length from 12 bytes up, cipher text length in every residue class of the block, every header field to boundary values, sender certificate null / empty / truncated / garbage / oversized, thumbprint null / 19 / 20 / 21 bytes, bogus padding bytes under a genuine signature, bit flips, raw bytes) into verify_and_remove_security, then chunk_info / validate_chunks / Chunker::decode, and through the client transport state; oracle: value or Bad status, never a panic; non-trivial = input passes the 12-byte header decode and the size check; distinct = distinct case; thorough adds a libFuzzer campaign (target c09_chunk_recv: receiver state from two selector bytes, the rest through verify_and_remove_security, chunk_info, validate_chunks and Chunker::decode, seeded with valid secured chunks)",
         assumptions: &["the receiver channel is built with the public setters only"],
         abort_possible: true,
         parts: |tier| {
@@ -340,6 +340,9 @@ pub fn def() -> PropDef {
                     .prop_map(|(receiver_is_server, pm, keys_derived, own_cert, remote_cert, asymmetric, payload, mutation, via_transport)| Case { receiver_is_server, pm, keys_derived, own_cert, remote_cert, asymmetric, payload, mutation, via_transport }),
                 check,
             )]
+            .into_iter()
+            .chain(if tier == Tier::Thorough { Some(part_fuzz("libfuzzer_c09_chunk_recv", "c09_chunk_recv", 600_000, 1024)) } else { None })
+            .collect()
         },
     }
 }
